@@ -71,6 +71,7 @@ fn f32_rgb_roundtrip(c: [f32; 3], r: &mut Report) {
         Ok(b) => b,
     };
     let err = (0..3).map(|i| (back[i] - c[i]).abs()).fold(0.0f32, f32::max);
+r.margin("f32-roundtrip(1e-4 stated)", err as f64, 1e-4);
     if !(err <= 1e-4) {
         let sector = (h[0] * 6.0) as i32;
         let frac = h[0] * 6.0 - sector as f32;
